@@ -93,6 +93,8 @@ func c17Values(c *mon.Ctx, r *mon.Rand) {
 		{root.Tagged(map[string]string{"k": "v1"}), prefix, mon.RefOverlay(rootTags, map[string]string{"k": "v1"})},
 		{root.Tagged(map[string]string{"k": "v2"}), prefix, mon.RefOverlay(rootTags, map[string]string{"k": "v2"})},
 		{root.SubScope("sub"), mon.RefName(prefix, "_", "sub"), rootTags},
+		// a tag with an empty value is a label value like any other: a series of its own next to k=v1 and k=v2
+		{root.Tagged(map[string]string{"k": ""}), prefix, mon.RefOverlay(rootTags, map[string]string{"k": ""})},
 		{root.SubScope("sub").Tagged(map[string]string{"zone": "z"}).SubScope("deep"), mon.RefName(prefix, "_", "sub", "deep"), mon.RefOverlay(rootTags, map[string]string{"zone": "z"})},
 	}
 	// half of the histories pre-register some vectors the way applications do
